@@ -257,12 +257,16 @@ package invocation
 //@
 //@ // ---- sealing: C08 (the CID is the content address of the sealed bytes) and C18 (streaming = buffered) ----
 //@ // sealedNode names the envelope node toIPLD builds for (token, key); toIPLD itself is trusted here
-//@ ghost func sealedNodei(t *Token, k crypto.PrivKey) datamodel.Node
+//@ // (signing may be randomised - ECDSA over the NIST curves is - so the node also depends on which signing of the key it
+//@ // is: signings(k) counts them, and each sealing function is verified to sign exactly once)
+//@ ghost func sealedNodei(t *Token, k crypto.PrivKey, n int) datamodel.Node
 //@ // input validity for sealing: a token as built by the constructors or the decoder (non-nil metadata, issuer in generated form, well-formed policy) and a key
 //@ pure func canSeali(t *Token, k crypto.PrivKey) bool = t != nil && k != nil && t.meta != nil && wfDID(t.issuer)
 //@ func (*Token).toIPLD
 //@   requires canSeali(t, privKey)
-//@   assumes result1 == nil ==> result0 == sealedNodei(t, privKey)
+//@   assumes result1 == nil ==> result0 == sealedNodei(t, privKey, old(signings(privKey)))
+//@   assigns signings(privKey)
+//@   ensures [C08,C18] once: result1 == nil ==> signings(privKey) == old(signings(privKey)) + 1
 //@   ensures result1 == nil ==> result0 != nil
 //@   ensures [C07] model: result1 == nil ==> sealedModel(result0) is *tokenPayloadModel && sealedModel(result0).(*tokenPayloadModel) != nil && modelOfi(sealedModel(result0).(*tokenPayloadModel), t)
 //@ pure func modelOfi(m *tokenPayloadModel, t *Token) bool =
@@ -272,22 +276,28 @@ package invocation
 //@  && (t.invokedAt == nil ? m.Iat == nil : (m.Iat != nil && *m.Iat == unixOf(*t.invokedAt)))
 //@ func (*Token).Encode
 //@   requires canSeali(t, privKey)
-//@   ensures [C08,C18] bytes: result1 == nil ==> bytes(result0) == encodeWith(encFn, sealedNodei(t, privKey))
+//@   ensures [C08,C18] bytes: result1 == nil ==> bytes(result0) == encodeWith(encFn, sealedNodei(t, privKey, old(signings(privKey))))
+//@   assigns signings(privKey)
+//@   ensures [C08,C18] once: result1 == nil ==> signings(privKey) == old(signings(privKey)) + 1
 //@ func (*Token).ToSealed
 //@   requires canSeali(t, privKey)
 //@   ensures [C08] cid: result2 == nil ==> result1 == ucanCid(bytes(result0))
-//@   ensures [C08,C18] bytes: result2 == nil ==> bytes(result0) == encodeWith(dagcbor.Encode, sealedNodei(t, privKey))
+//@   ensures [C08,C18] bytes: result2 == nil ==> bytes(result0) == encodeWith(dagcbor.Encode, sealedNodei(t, privKey, old(signings(privKey))))
+//@   assigns signings(privKey)
+//@   ensures [C08,C18] once: result2 == nil ==> signings(privKey) == old(signings(privKey)) + 1
 //@ func (*Token).EncodeWriter
 //@   inline
 //@   requires canSeali(t, privKey) && w != nil
-//@   ensures [C18] bytes: result == nil ==> written(w) == old(written(w)) ++ encodeWith(encFn, sealedNodei(t, privKey)) && wfailed(w) == old(wfailed(w))
-//@   assigns written(w), wfailed(w)
+//@   ensures [C18] bytes: result == nil ==> written(w) == old(written(w)) ++ encodeWith(encFn, sealedNodei(t, privKey, old(signings(privKey)))) && wfailed(w) == old(wfailed(w))
+//@   ensures [C08,C18] once: result == nil ==> signings(privKey) == old(signings(privKey)) + 1
+//@   assigns written(w), wfailed(w), signings(privKey)
 //@ func (*Token).ToSealedWriter
 //@   requires canSeali(t, privKey) && w != nil
 //@   use cid_sum_sha256
-//@   ensures [C18] bytes: result1 == nil ==> written(w) == old(written(w)) ++ encodeWith(dagcbor.Encode, sealedNodei(t, privKey)) && wfailed(w) == old(wfailed(w))
-//@   ensures [C08,C18] cid: result1 == nil ==> result0 == ucanCid(encodeWith(dagcbor.Encode, sealedNodei(t, privKey)))
-//@   assigns written(w), wfailed(w)
+//@   ensures [C18] bytes: result1 == nil ==> written(w) == old(written(w)) ++ encodeWith(dagcbor.Encode, sealedNodei(t, privKey, old(signings(privKey)))) && wfailed(w) == old(wfailed(w))
+//@   ensures [C08,C18] cid: result1 == nil ==> result0 == ucanCid(encodeWith(dagcbor.Encode, sealedNodei(t, privKey, old(signings(privKey)))))
+//@   ensures [C08,C18] once: result1 == nil ==> signings(privKey) == old(signings(privKey)) + 1
+//@   assigns written(w), wfailed(w), signings(privKey)
 //@ func DecodeReader
 //@   inline
 //@   requires r != nil && decFn != nil
